@@ -209,9 +209,18 @@ def r15_4(ctx):
     ok = bool(asp) and all(rc.cfg.dominated_by(r, asp, completed=True)[0] for r in rets)
     ctx.ob('R15.4', 'reduce_ctype:only-while-spawning', ok, rc, None, 'assert_spawning(obj) first')
     o = rc.positional_params()[0]
+    cases = []
     for r in rets:
-        txt = ast.unparse(r.ast.value).replace(' ', '')
-        if q.has_guard(rc, r, 'isinstance(%s, ctypes.Array)' % o, True):
+        v = r.ast.value
+        # return rebuild_ctype, (A if isinstance(obj, ctypes.Array) else B)  is the two returns in one
+        if isinstance(v, ast.Tuple) and len(v.elts) == 2 and isinstance(v.elts[1], ast.IfExp) and \
+                ast.unparse(v.elts[1].test).replace(' ', '') == 'isinstance(%s,ctypes.Array)' % o:
+            cases.append((r, '%s,%s' % (ast.unparse(v.elts[0]), ast.unparse(v.elts[1].body).replace(' ', '')), True))
+            cases.append((r, '%s,%s' % (ast.unparse(v.elts[0]), ast.unparse(v.elts[1].orelse).replace(' ', '')), False))
+        else:
+            cases.append((r, ast.unparse(v).replace(' ', ''), q.has_guard(rc, r, 'isinstance(%s, ctypes.Array)' % o, True)))
+    for (r, txt, is_array) in cases:
+        if is_array:
             ok = txt == 'rebuild_ctype,(%s._type_,%s._wrapper,%s._length_)' % (o, o, o) or \
                 txt == '(rebuild_ctype,(%s._type_,%s._wrapper,%s._length_))' % (o, o, o)
             ctx.ob('R15.4', 'reduce_ctype:array-travels-as-element-type-wrapper-length', ok, rc, r, txt)
